@@ -234,7 +234,7 @@ pub struct C07;
 fn gen_c07(seed: u64, tier: Tier) -> ResolvePlan {
     let mut r = Rng::new(seed);
     let mut knobs = random_benign_knobs(&mut r);
-    let ttl_sets: [&[u32]; 4] = [&[300], &[5, 300], &[2, 60, 300], &[1, 5, 3600]];
+    let ttl_sets: [&[u32]; 6] = [&[300], &[5, 300], &[2, 60, 300], &[1, 5, 3600], &[1, 300], &[1, 2]];
     let opts = GenOpts {
         max_depth: match tier {
             Tier::Quick => r.range(1, 3),
@@ -249,7 +249,9 @@ fn gen_c07(seed: u64, tier: Tier) -> ResolvePlan {
         ttl_choices: r.pick(&ttl_sets).to_vec(),
         // two siblings serving each other need the parent to send sibling glue
         mutual_sibling_ns: knobs.server.sibling_glue && r.chance(0.6),
-        zero_ttl_outside_ns_addresses: 0,
+        // out-of-zone servers whose addresses have to be looked up every time
+        zero_ttl_outside_ns_addresses: *r.pick(&[0u8, 0, 0, 60]),
+        short_ttl_value: 1,
     };
     // address families: mostly v4, sometimes dual/v6 with a matching mode
     let (fam, mode) = match r.below(6) {
@@ -278,7 +280,7 @@ fn gen_c07(seed: u64, tier: Tier) -> ResolvePlan {
             qs.push((name, qtype));
         }
     }
-    let questions = qs
+    let mut questions: Vec<QuestionPlan> = qs
         .into_iter()
         .map(|(name, qtype)| QuestionPlan {
             gap_ms: *r.pick(&GAPS),
@@ -288,6 +290,38 @@ fn gen_c07(seed: u64, tier: Tier) -> ResolvePlan {
             prune_before: small_cache && r.chance(0.5),
         })
         .collect();
+    // an alias chain of two or more links asked twice in quick succession, for two
+    // types: the second question finds the links in the cache and their end not
+    let chain_starts: Vec<String> = u
+        .zones
+        .iter()
+        .flat_map(|z| z.records.iter())
+        .filter(|rec| !rec.wild && rec.rtype() == "CNAME")
+        .filter(|rec| {
+            u.zones.iter().flat_map(|z| z.records.iter()).any(|t| {
+                !t.wild && t.rtype() == "CNAME" && universe::names_equal(&t.owner, rec.rdata())
+            })
+        })
+        .map(|rec| rec.owner.clone())
+        .collect();
+    if !chain_starts.is_empty() && r.chance(0.35) {
+        let name = r.pick(&chain_starts).clone();
+        let t1 = *r.pick(&["A", "TXT", "MX", "AAAA"]);
+        let t2 = *r.pick(&["A", "TXT", "MX", "AAAA"]);
+        let at = r.below(questions.len() as u64 + 1) as usize;
+        for (k, t) in [t1, t2].iter().enumerate() {
+            questions.insert(
+                at + k,
+                QuestionPlan {
+                    gap_ms: if k == 0 { *r.pick(&GAPS) } else { *r.pick(&[0u64, 10, 900]) },
+                    name: name.clone(),
+                    qtype: (*t).into(),
+                    recursive: true,
+                    prune_before: false,
+                },
+            );
+        }
+    }
     ResolvePlan {
         knobs,
         hints_auto: true,
@@ -769,6 +803,7 @@ fn gen_c18(seed: u64, _index: u64, tier: Tier) -> ResolvePlan {
         mutual_sibling_ns: false,
         // addresses of out-of-zone servers that can be used but never cached
         zero_ttl_outside_ns_addresses: *r.pick(&[0u8, 0, 30, 100]),
+        short_ttl_value: 0,
     };
     knobs.protocol_mode = (*r.pick(&["only-v4", "prefer-v4", "prefer-v6", "only-v6"])).to_string();
     knobs.upstream_port = *r.pick(&[53u16, 53, 5353, 1053, 40000]);
